@@ -18,6 +18,7 @@ type Node struct {
 	Rings    [][]geometry.Point // Point/SimplePoint: [[p]]; LineString: [pts]; Polygon: rings; Rect: [[min,max]]
 	Children []*Node
 	Members  string  // Feature members (constructor path)
+	BBox     string  // text of a "bbox" member written by JSON() (foreign to the geometry: must change nothing)
 	Meters   float64 // Circle
 	Steps    int     // Circle
 }
@@ -194,6 +195,7 @@ func (n *Node) json(b *strings.Builder) {
 		}
 		b.WriteString(`{"type":"` + t + `","coordinates":`)
 		n.coords(b)
+		n.bboxMember(b)
 		b.WriteByte('}')
 	case "MultiPoint", "MultiLineString", "MultiPolygon":
 		b.WriteString(`{"type":"` + n.Kind + `","coordinates":[`)
@@ -203,7 +205,9 @@ func (n *Node) json(b *strings.Builder) {
 			}
 			c.coords(b)
 		}
-		b.WriteString("]}")
+		b.WriteString("]")
+		n.bboxMember(b)
+		b.WriteString("}")
 	case "GeometryCollection", "FeatureCollection":
 		key := "geometries"
 		if n.Kind == "FeatureCollection" {
@@ -216,14 +220,82 @@ func (n *Node) json(b *strings.Builder) {
 			}
 			c.json(b)
 		}
-		b.WriteString("]}")
+		b.WriteString("]")
+		n.bboxMember(b)
+		b.WriteString("}")
 	case "Feature":
 		b.WriteString(`{"type":"Feature","geometry":`)
 		n.Children[0].json(b)
+		n.bboxMember(b)
 		b.WriteString(`,"properties":{}}`)
 	default:
 		panic("model: no JSON for " + n.Kind)
 	}
+}
+
+func (n *Node) bboxMember(b *strings.Builder) {
+	if n.BBox != "" {
+		b.WriteString(`,"bbox":` + n.BBox)
+	}
+}
+
+// DecorateBBoxes gives some nodes of the tree a "bbox" member: the tight box in
+// the 2-D form, the 3-D form [w,s,zmin,e,n,zmax] (zmin chosen so that a reader
+// taking it for [w,s,e,n] gets a plausible box), and stale or bogus boxes.  The
+// member is foreign to the geometry; nothing the checks observe may depend on it.
+func (n *Node) DecorateBBoxes(r *rand.Rand) {
+	n.Walk(func(k *Node) {
+		p := 4
+		if k.Kind == "Feature" {
+			p = 2
+		}
+		if k.Kind == "Circle" || r.Intn(p) != 0 {
+			return
+		}
+		ps := k.Positions(false, nil)
+		if len(ps) == 0 {
+			k.BBox = []string{"[0,0,0,0]", "null", "[1,2,3,4]"}[r.Intn(3)]
+			return
+		}
+		w, s, e, nn := ps[0].X, ps[0].Y, ps[0].X, ps[0].Y
+		for _, q := range ps {
+			w, e = math.Min(w, q.X), math.Max(e, q.X)
+			s, nn = math.Min(s, q.Y), math.Max(nn, q.Y)
+		}
+		f := func(vs ...float64) string {
+			for _, v := range vs {
+				if math.IsNaN(v) || math.IsInf(v, 0) {
+					return "null"
+				}
+			}
+			var b strings.Builder
+			b.WriteByte('[')
+			for i, v := range vs {
+				if i > 0 {
+					b.WriteByte(',')
+				}
+				fnum(&b, v)
+			}
+			b.WriteByte(']')
+			return b.String()
+		}
+		switch r.Intn(8) {
+		case 0, 1:
+			k.BBox = f(w, s, e, nn)
+		case 2:
+			k.BBox = f(w, s, w, e, nn, w+10) // 3-D, zmin = west
+		case 3:
+			k.BBox = f(w, s, 0, e, nn, 100)
+		case 4:
+			k.BBox = f(w+50, s+50, e+50, nn+50) // stale
+		case 5:
+			k.BBox = f(w, s, (w+e)/2, (s+nn)/2) // too small
+		case 6:
+			k.BBox = f(w-1, s-1, e+1, nn+1) // rounded out
+		default:
+			k.BBox = []string{"[0,0,0,0]", "null", "[]", `"x"`, "[1000,1000,1001,1001]", "[10,10,-10,-10]"}[r.Intn(6)]
+		}
+	})
 }
 
 // Empty per the property: no part that occupies space.
@@ -329,6 +401,9 @@ func (n *Node) Describe() interface{} {
 	}
 	if n.Members != "" {
 		m["members"] = n.Members
+	}
+	if n.BBox != "" {
+		m["bbox_member"] = n.BBox
 	}
 	if len(n.Children) > 0 {
 		var cs []interface{}
